@@ -429,6 +429,13 @@ class _Inliner(ast.NodeTransformer):
                         return None
                     if h is not None and h.recv is not None:
                         recv_map[h.recv] = ast.Name(base, ast.Load())
+                else:
+                    # `operation._new_helper(...)` on a local: when exactly one class of the package defines a member of
+                    # that name and it is a new helper method, the call can only mean that method
+                    cands = [hh for (_r, _o, nme), hh in self.pkg.methods.items() if nme == f.attr]
+                    if len(cands) == 1 and self.pkg.attr_names.get(f.attr, 0) == 1 and cands[0].kind == "method" and cands[0].recv is not None and f.attr.startswith("_"):
+                        h = cands[0]
+                        recv_map[h.recv] = ast.Name(base, ast.Load())
         elif isinstance(f, ast.Name):
             h = self.pkg.function(self.rel, f.id)
         if h is None or len(call.args) + len(call.keywords) != len(h.params):
@@ -2050,3 +2057,162 @@ def nest_operation_patterns(tree: ast.Module) -> int:
     if t.changed:
         ast.fix_missing_locations(tree)
     return t.changed
+
+
+# ------------------------------------------------------------------------------------------------------------------
+# N17: `x[slice(a, b)]` is `x[a:b]`
+
+
+class _SliceCalls(ast.NodeTransformer):
+    def __init__(self):
+        self.n = 0
+
+    def visit_Subscript(self, node: ast.Subscript):
+        self.generic_visit(node)
+        s = node.slice
+        if isinstance(s, ast.Call) and isinstance(s.func, ast.Name) and s.func.id == "slice" and not s.keywords and 1 <= len(s.args) <= 3 and not any(isinstance(a, ast.Starred) for a in s.args):
+            a = list(s.args)
+            none = lambda e: None if isinstance(e, ast.Constant) and e.value is None else e  # noqa: E731
+            if len(a) == 1:
+                new = ast.Slice(lower=None, upper=none(a[0]), step=None)
+            else:
+                new = ast.Slice(lower=none(a[0]), upper=none(a[1]), step=none(a[2]) if len(a) == 3 else None)
+            node.slice = ast.copy_location(new, s)
+            self.n += 1
+        return node
+
+
+def slice_calls_to_slices(tree: ast.Module) -> int:
+    t = _SliceCalls()
+    t.visit(tree)
+    if t.n:
+        ast.fix_missing_locations(tree)
+    return t.n
+
+
+# ------------------------------------------------------------------------------------------------------------------
+# N18: a base-class constructor that only stores its arguments, called from a subclass constructor, is those stores
+
+
+def inline_base_inits(trees: dict[str, ast.Module]) -> int:
+    classes: dict[str, list[ast.ClassDef]] = {}
+    for tree in trees.values():
+        for n in tree.body:
+            if isinstance(n, ast.ClassDef):
+                classes.setdefault(n.name, []).append(n)
+
+    def simple_init(c: ast.ClassDef):
+        init = next((s for s in c.body if isinstance(s, ast.FunctionDef) and s.name == "__init__"), None)
+        if init is None or init.args.vararg or init.args.kwarg or init.args.kwonlyargs or init.args.defaults:
+            return None
+        body = [s for s in init.body if not (isinstance(s, ast.Expr) and isinstance(s.value, ast.Constant))]
+        params = [a.arg for a in init.args.args]
+        if not params or not body:
+            return None
+        for s in body:
+            if not (isinstance(s, ast.Assign) and len(s.targets) == 1 and isinstance(s.targets[0], ast.Attribute) and isinstance(s.targets[0].value, ast.Name) and s.targets[0].value.id == params[0]):
+                return None
+            if any(isinstance(x, (ast.Call, ast.Lambda, ast.NamedExpr, ast.Await, ast.Yield)) for x in ast.walk(s.value)):
+                return None
+        return params, body
+
+    n = 0
+    for tree in trees.values():
+        for c in tree.body:
+            if not isinstance(c, ast.ClassDef):
+                continue
+            init = next((s for s in c.body if isinstance(s, ast.FunctionDef) and s.name == "__init__"), None)
+            if init is None or not init.args.args:
+                continue
+            me = init.args.args[0].arg
+            base_names = [b.id if isinstance(b, ast.Name) else b.attr if isinstance(b, ast.Attribute) else None for b in c.bases]
+            new_body = []
+            for s in init.body:
+                repl = None
+                if isinstance(s, ast.Expr) and isinstance(s.value, ast.Call) and isinstance(s.value.func, ast.Attribute) and s.value.func.attr == "__init__" and not s.value.keywords:
+                    call = s.value
+                    recv = call.func.value
+                    bname, args = None, None
+                    if isinstance(recv, ast.Name) and recv.id in base_names and call.args and isinstance(call.args[0], ast.Name) and call.args[0].id == me:
+                        bname, args = recv.id, call.args[1:]
+                    elif isinstance(recv, ast.Call) and isinstance(recv.func, ast.Name) and recv.func.id == "super" and not recv.args and len([b for b in base_names if b in classes]) == 1:
+                        bname, args = next(b for b in base_names if b in classes), call.args
+                    if bname and len(classes.get(bname, [])) == 1 and not any(isinstance(a, ast.Starred) for a in args):
+                        si = simple_init(classes[bname][0])
+                        if si is not None and len(si[0]) - 1 == len(args):
+                            params, body = si
+                            mapping = {params[0]: ast.Name(me, ast.Load())}
+                            mapping.update(dict(zip(params[1:], args)))
+                            repl = [ast.copy_location(_Subst(mapping).visit(copy.deepcopy(b)), s) for b in body]
+                if repl is not None:
+                    new_body.extend(repl)
+                    n += 1
+                else:
+                    new_body.append(s)
+            init.body = new_body
+        if n:
+            ast.fix_missing_locations(tree)
+    return n
+
+
+# ------------------------------------------------------------------------------------------------------------------
+# N19: `match <conditional expression whose leaves are constants>` with constant arms is the nest of ifs it abbreviates
+#      (a tri-state helper `-> bool | None`, inlined, read with `case True: ... case False: ...`)
+
+
+def _const_leaves(e: ast.expr) -> bool:
+    if isinstance(e, ast.IfExp):
+        return _const_leaves(e.body) and _const_leaves(e.orelse)
+    return isinstance(e, ast.Constant) and (e.value is None or isinstance(e.value, bool))
+
+
+def _arm_for(cases: list[ast.match_case], value) -> list[ast.stmt] | None:
+    for c in cases:
+        p = c.pattern
+        if c.guard is not None:
+            return None
+        if isinstance(p, ast.MatchSingleton):
+            if p.value is value:
+                return c.body
+        elif isinstance(p, ast.MatchValue) and isinstance(p.value, ast.Constant):
+            if p.value.value is value or (type(p.value.value) is type(value) and p.value.value == value):
+                return c.body
+        elif isinstance(p, ast.MatchAs) and p.pattern is None and p.name is None:
+            return c.body
+        else:
+            return None
+    return []
+
+
+class _ConstMatch(ast.NodeTransformer):
+    def __init__(self):
+        self.n = 0
+
+    def _expand(self, e: ast.expr, cases) -> list[ast.stmt] | None:
+        if isinstance(e, ast.IfExp):
+            a, b = self._expand(e.body, cases), self._expand(e.orelse, cases)
+            if a is None or b is None:
+                return None
+            return [ast.If(test=copy.deepcopy(e.test), body=a or [ast.Pass()], orelse=b)]
+        body = _arm_for(cases, e.value)  # type: ignore[union-attr]
+        return None if body is None else [copy.deepcopy(s) for s in body]
+
+    def visit_Match(self, node: ast.Match):
+        self.generic_visit(node)
+        if not (isinstance(node.subject, ast.IfExp) and _const_leaves(node.subject)):
+            return node
+        if not all(isinstance(c.pattern, (ast.MatchSingleton, ast.MatchValue)) or (isinstance(c.pattern, ast.MatchAs) and c.pattern.pattern is None and c.pattern.name is None) for c in node.cases):
+            return node
+        out = self._expand(node.subject, node.cases)
+        if out is None:
+            return node
+        self.n += 1
+        return [ast.copy_location(s, node) for s in out] or [ast.copy_location(ast.Pass(), node)]
+
+
+def constant_matches_to_ifs(tree: ast.Module) -> int:
+    t = _ConstMatch()
+    t.visit(tree)
+    if t.n:
+        ast.fix_missing_locations(tree)
+    return t.n
